@@ -704,7 +704,11 @@ def run_c10(ctx):
     ctx.traces_validated += n_ok
     ctx.evaluations += n_ok + n_bad
     sample = [ctx.case("trace", t, gen.random_cfg(rng)) for t, _, _ in pool[:: max(1, len(pool) // ctx.n(300, 3000))]]
-    ctx.run_stream(sample, units=["recon", "settings"])
+    # the wrapper measures a line with the strings the reconstructor emits: its logged line length of every decided
+    # token against the model of get_token_line_length and against the rendered column, under narrow widths too
+    sample += [ctx.case("trace-narrow", t, gen.random_cfg(rng, wrap=rng.choice([30, 50, 80]))) for t, _, _ in pool[:: max(1, len(pool) // ctx.n(300, 3000))]]
+    ctx.run_stream(sample, units=["recon", "settings", "measure"])
+    ctx.hypotheses["the search's measured line length (LineWhitespace::len, get_token_line_length) is the model's"] = "unit measure on every traced case: hook log of last_line_length per decision"
     ctx.hypotheses["H-W3 (with the width unconstrained the plan does not depend on indentation widths)"] = "tabs/spaces pairs on the real formatter with wrap_column = 10^9"
 
 
@@ -1680,6 +1684,11 @@ def run_c11(ctx):
                 g.append((cfg[0], c))
             groups.append(g)
     res = ctx.run_stream(cases, mode="fmt")
+    # the limit is applied to a MEASURED length: the search's logged line length of every decided token against the
+    # model of get_token_line_length and against the rendered column (theorem C11_measured_fit_is_rendered_fit)
+    msample = [ctx.case("trace-" + c.meta["stream"], c.text, c.cfg) for c in cases[:: max(1, len(cases) // ctx.n(500, 5000))]]
+    ctx.run_stream(msample, units=["measure", "recon", "wrapapply"])
+    ctx.hypotheses["the search's measured line length (LineWhitespace::len, get_token_line_length) is the model's"] = "unit measure on a traced sample of the width-pair cases"
 
     def maxlen(out):
         return max((len(l.rstrip(b"\r")) for l in out.split(b"\n")), default=0)
